@@ -123,6 +123,120 @@ def run(prog, ctx):
                 decided += 1
                 res.violate("C11.L", "C11.L|%s|%s" % (fam, ",".join("%s=%s" % kv for kv in sorted(label.items()))),
                             "%s: what serialize() writes in state %s is not what deserialize() reads: %s; written: %s" % (fam, label, detail, [k for k, v in stream]), rf.id)
+    # ---------------- C11.U a state field the reader reads must reach the object it returns: a value that is read, range-checked
+    # and then dropped (the object is built from something else) does not survive the round trip.  A read is "used" when it is an
+    # operand of anything but a comparison or an error message; reads that are compared for equality (check fields: version,
+    # family, seed hash) or that only size a loop / an allocation are exempt.
+    n_u = 0
+    FMT = ("fmt::", "Arguments", "new_display", "new_debug", "format", "deserial", "insufficient_data", "Error::")
+    for fam in sorted(specfmt.FAMILIES):
+        if ctx.get("families") and fam not in ctx["families"]:
+            continue
+        rf = C.pub_fn(prog, *specfmt.FAMILIES[fam]["reader"])
+        if rf is None:
+            continue
+        for g in [rf] + [x for x in C.reach_from(prog, [rf.id]) if x.id != rf.id and x.id.split("::")[0] == rf.id.split("::")[0] and not x.promoted and "{closure" not in x.id]:
+            reads = [(b, site) for b, site in g.calls() if proto.R_RE.match(site.get("callee") or "")]
+            if not reads:
+                continue
+            sg = sym.Sym(prog, g)
+            tags = {}
+            for b, site in reads:
+                tags["%s@%s#%d()" % ((site.get("callee") or "").rsplit("::", 1)[-1], g.item_name, b)] = (b, site)
+            if not tags:
+                continue
+            used, eq_checked, compared = set(), set(), set()
+            for bb in g.blocks:
+                if bb.cleanup:
+                    continue
+                for st in bb.stmts:
+                    if st[0] != "=":
+                        continue
+                    try:
+                        e = sg.at(bb.idx, "t").rvalue(st[2])
+                    except Exception:
+                        continue
+                    inside = set(show(y) for y in sym.walk(e) if y[0] == "call" and show(y) in tags)
+                    if not inside:
+                        continue
+                    if st[2][0] in ("bin", "checked") and st[2][1] in ("Eq", "Ne"):
+                        eq_checked |= inside
+                    elif st[2][0] in ("bin", "checked") and st[2][1] in ("Lt", "Le", "Gt", "Ge"):
+                        compared |= inside
+                    elif st[2][0] == "agg":
+                        used |= inside
+                    elif not isinstance(st[1], int):
+                        used |= inside          # stored into a place (a field of the object under construction)
+                t = bb.term
+                if t[0] == "call":
+                    cal = t[1].get("callee") or ""
+                    if any(x in cal for x in FMT):
+                        continue
+                    short = cal.rsplit("::", 1)[-1]
+                    for a in t[1]["args"]:
+                        try:
+                            e = sg.at(bb.idx, "t").operand(a)
+                        except Exception:
+                            continue
+                        inside = set(show(y) for y in sym.walk(e) if y[0] == "call" and show(y) in tags)
+                        if not inside:
+                            continue
+                        if short in ("eq", "ne"):
+                            eq_checked |= inside
+                        elif short in ("contains", "cmp", "partial_cmp", "lt", "le", "gt", "ge"):
+                            compared |= inside
+                        elif proto.R_RE.match(cal) or short in ("map_err", "branch", "from_residual", "unwrap", "expect", "into", "from", "try_from", "try_into", "clone", "min", "max"):
+                            pass
+                        else:
+                            used |= inside
+                if t[0] == "switch":
+                    try:
+                        e = sg.at(bb.idx, "t").operand(t[1])
+                    except Exception:
+                        e = None
+                    if e is not None and e[0] != "discr":
+                        inside = set(show(y) for y in sym.walk(e) if y[0] == "call" and show(y) in tags)
+                        eq_checked |= inside
+            for tg in sorted(tags):
+                if tg in used or tg in eq_checked:
+                    continue
+                if tg not in compared:
+                    continue            # never looked at: padding / unused field
+                n_u += 1
+                res.tri(False, "C11.U", "C11.U|%s|%s" % (g.id, tg.split("@")[0]), "%s reads %s, range-checks it and then drops it: the object it returns is built without that "
+                        "value, so the field does not survive serialize -> deserialize" % (g.id, tg), g.id, tags[tg][1].get("span"))
+            n_u += len([tg for tg in tags if tg in used])
+            # sibling constructions: the same constructor reached on two paths of the reader takes each argument from the image on
+            # both or on neither (a field restored on the empty path and replaced by a constant on the other is lost)
+            by_callee = {}
+            for bb, site in g.calls():
+                cal = site.get("callee") or ""
+                if cal in prog.fns and not proto.R_RE.match(cal) and prog.fns[cal].owner == g.owner and site["args"]:
+                    by_callee.setdefault(cal, []).append((bb, site))
+            for cal, sites_ in sorted(by_callee.items()):
+                if len(sites_) < 2:
+                    continue
+                per = []
+                for bb, site in sites_:
+                    row = []
+                    for a in site["args"]:
+                        try:
+                            e = sg.at(bb, "t").operand(a)
+                        except Exception:
+                            e = ("unknown",)
+                        row.append((set(show(y) for y in sym.walk(e) if y[0] == "call" and show(y) in tags), e))
+                    per.append(row)
+                for i in range(min(len(r) for r in per)):
+                    with_tag = [r[i] for r in per if r[i][0]]
+                    # only where the value had been read on that path as well (the read dominates the construction)
+                    consts = [r[i] for r, (bb_, _s) in zip(per, sites_) if not r[i][0] and r[i][1][0] in ("const", "static")
+                              and with_tag and all(g.dominates(tags[tg][0], bb_) for tg in with_tag[0][0])]
+                    if with_tag and consts:
+                        n_u += 1
+                        res.tri(False, "C11.U", "C11.U|%s|%s|arg%d" % (g.id, cal.rsplit("::", 1)[-1], i), "%s builds the object with %s(.., %s, ..) on one path and with the constant %s in the same "
+                                "position on another: the value read from the image is dropped there and does not survive the round trip" % (
+                                    g.id, cal.rsplit("::", 1)[-1], sorted(with_tag[0][0])[0], show(consts[0][1])), g.id)
+    res.rule("C11.U", n_u, 20, "image fields read by the readers that reach the returned object")
     # ---------------- C11.W CpcWrapper::new reads a prefix of the CPC image: in every state, each token the full reader lands in
     # a field the wrapper also keeps (by landing name) must be consumed by the wrapper at the same position and landed in the same
     # field; the wrapper may stop early only where nothing it keeps follows
